@@ -289,3 +289,178 @@ def default_of(callee: ast.FunctionDef, param: str) -> Optional[ast.AST]:
         if x.arg == param:
             return d
     return None
+
+
+# --------------------------------------------------------------------------
+# flow-sensitive reaching definitions (over the statement CFG of E2)
+# --------------------------------------------------------------------------
+class Reaching:
+    """Reaching definitions of local names at every statement of a function.
+
+    ``at(node, name)`` -- the bindings of ``name`` that may reach the
+    statement containing the AST node ``node``; ``resolve(expr)`` -- copy
+    propagation that is robust against re-binding of one name along the
+    function (``x = f(a); x = g(x)``) and against hoisting a sub-expression
+    into a temporary: a Name whose *only* reaching binding at that point is a
+    plain assignment of a computed value is replaced by the bound expression
+    (evaluated, in turn, at the binding's own statement)."""
+
+    def __init__(self, func: ast.FunctionDef, cfg: "object", defs: Defs
+                 ) -> None:
+        self.func = func
+        self.cfg = cfg
+        self.defs = defs
+        gen: dict[int, list[Binding]] = {}
+        for bs in defs.bindings.values():
+            for b in bs:
+                if b.kind in ("param", "comp", "lambda"):
+                    continue
+                if cfg.has(b.stmt):                    # type: ignore[attr-defined]
+                    gen.setdefault(cfg.node(b.stmt), []).append(b)  # type: ignore[attr-defined]
+                else:
+                    # a binding inside an expression (walrus) or in a nested
+                    # statement header: attribute it to the owning statement
+                    nid = cfg.container(b.stmt)        # type: ignore[attr-defined]
+                    if nid is not None:
+                        gen.setdefault(nid, []).append(b)
+        self._gen = gen
+        params = [b for bs in defs.bindings.values() for b in bs
+                  if b.kind == "param"]
+        n = len(cfg.nodes)                             # type: ignore[attr-defined]
+        self.IN: list[set[int]] = [set() for _ in range(n)]
+        self.OUT: list[set[int]] = [set() for _ in range(n)]
+        self._b: dict[int, Binding] = {}
+        for b in params:
+            self._b[id(b)] = b
+        for bl in gen.values():
+            for b in bl:
+                self._b[id(b)] = b
+        entry_out = {id(b) for b in params}
+        changed = True
+        order = list(range(n))
+        while changed:
+            changed = False
+            for x in order:
+                if x == 0:
+                    out = set(entry_out)
+                    inn: set[int] = set()
+                else:
+                    inn = set()
+                    for p in cfg.pred[x]:              # type: ignore[attr-defined]
+                        inn |= self.OUT[p]
+                    g = gen.get(x, [])
+                    if g:
+                        killed = {b.name for b in g}
+                        out = {i for i in inn
+                               if self._b[i].name not in killed}
+                        out |= {id(b) for b in g}
+                    else:
+                        out = inn
+                if inn != self.IN[x] or out != self.OUT[x]:
+                    self.IN[x], self.OUT[x] = inn, out
+                    changed = True
+
+    def _node_of(self, node: ast.AST) -> Optional[int]:
+        cfg = self.cfg
+        if cfg.has(node):                              # type: ignore[attr-defined]
+            return cfg.node(node)                      # type: ignore[attr-defined]
+        return cfg.container(node)                     # type: ignore[attr-defined]
+
+    def at(self, node: ast.AST, name: str) -> list[Binding]:
+        nid = self._node_of(node)
+        if nid is None:
+            return list(self.defs.of(name))
+        return [self._b[i] for i in self.IN[nid] if self._b[i].name == name]
+
+    def _pure_temp(self, b: Binding) -> bool:
+        """A literal container bound once to a name that is only ever read as
+        a whole (never a method receiver, never subscripted for a store):
+        a temporary, not the initial state of a mutated object."""
+        if not (b.kind == "assign" and isinstance(b.target, ast.Name)
+                and isinstance(b.value, (ast.List, ast.Tuple, ast.Dict,
+                                         ast.Set, ast.Constant))):
+            return False
+        if len(self.defs.of(b.name)) != 1:
+            return False
+        for n in ast.walk(self.func):
+            if isinstance(n, ast.Attribute) and isinstance(n.value, ast.Name) \
+                    and n.value.id == b.name:
+                return False
+            if isinstance(n, ast.Subscript) and isinstance(n.value, ast.Name) \
+                    and n.value.id == b.name and not isinstance(n.ctx,
+                                                                ast.Load):
+                return False
+        return True
+
+    def _subst(self, b: Binding) -> bool:
+        return Defs._substitutable(b) or self._pure_temp(b)
+
+    def resolve(self, expr: ast.AST, depth: int = 8,
+                at: Optional[ast.AST] = None) -> ast.AST:
+        """Outermost copy propagation, flow-sensitively.  ``at``: the AST
+        node (inside the function) that locates the evaluation point; default
+        ``expr`` itself."""
+        cur, loc = expr, (at if at is not None else expr)
+        for _ in range(depth):
+            if isinstance(cur, ast.Name):
+                bs = self.at(loc, cur.id)
+                if len(bs) == 1 and self._subst(bs[0]):
+                    cur, loc = bs[0].value, bs[0].stmt
+                    continue
+            break
+        return cur
+
+    def resolve_deep(self, expr: ast.AST, depth: int = 5,
+                     at: Optional[ast.AST] = None) -> ast.AST:
+        import copy
+        me = self
+
+        def sub(e: ast.AST, loc: ast.AST, d: int) -> ast.AST:
+            if isinstance(e, ast.Name) and isinstance(e.ctx, ast.Load) and d > 0:
+                bs = me.at(loc, e.id)
+                if len(bs) == 1 and me._subst(bs[0]):
+                    return sub(bs[0].value, bs[0].stmt, d - 1)
+                return e
+            if isinstance(e, (ast.Lambda, ast.ListComp, ast.SetComp,
+                              ast.GeneratorExp, ast.DictComp)):
+                bound = {a.arg for a in e.args.args} if isinstance(
+                    e, ast.Lambda) else {
+                    n.id for g in e.generators for n in ast.walk(g.target)
+                    if isinstance(n, ast.Name)}
+            else:
+                bound = set()
+            new = copy.copy(e)
+            for fld, val in ast.iter_fields(e):
+                if isinstance(val, ast.AST):
+                    if isinstance(val, ast.Name) and val.id in bound:
+                        continue
+                    setattr(new, fld, sub_guard(val, loc, d, bound))
+                elif isinstance(val, list):
+                    setattr(new, fld, [
+                        sub_guard(v, loc, d, bound)
+                        if isinstance(v, ast.AST) else v for v in val])
+            return new
+
+        def sub_guard(e: ast.AST, loc: ast.AST, d: int, bound: set[str]
+                      ) -> ast.AST:
+            if not bound:
+                return sub(e, loc, d)
+            # do not substitute names bound by the enclosing lambda /
+            # comprehension
+            class _Shield(ast.NodeTransformer):
+                pass
+            if isinstance(e, ast.Name) and e.id in bound:
+                return e
+            if isinstance(e, ast.Name):
+                return sub(e, loc, d)
+            new = copy.copy(e)
+            for fld, val in ast.iter_fields(e):
+                if isinstance(val, ast.AST):
+                    setattr(new, fld, sub_guard(val, loc, d, bound))
+                elif isinstance(val, list):
+                    setattr(new, fld, [
+                        sub_guard(v, loc, d, bound)
+                        if isinstance(v, ast.AST) else v for v in val])
+            return new
+
+        return sub(expr, at if at is not None else expr, depth)
